@@ -59,6 +59,7 @@ func GetReplayCache(d time.Duration) *Cache {
 
 // AddEntry adds an entry to the Cache.
 func (c *Cache) AddEntry(sname types.PrincipalName, a types.Authenticator) {
+	verifYield("AddEntry:Lock")
 	c.mux.Lock()
 	defer c.mux.Unlock()
 	c.addEntry(sname, a)
@@ -86,6 +87,7 @@ func (c *Cache) addEntry(sname types.PrincipalName, a types.Authenticator) {
 // ClearOldEntries clears entries from the Cache whose client time is older than the duration provided.
 // An entry has to be kept for as long as its client time would still pass the clock skew check, not for the duration since it was presented.
 func (c *Cache) ClearOldEntries(d time.Duration) {
+	verifYield("ClearOldEntries:Lock")
 	c.mux.Lock()
 	defer c.mux.Unlock()
 	for ke, ce := range c.entries {
@@ -104,6 +106,7 @@ func (c *Cache) ClearOldEntries(d time.Duration) {
 // The look up and the insertion happen under one lock so that concurrent presentations of the same Authenticator cannot all be told it is not a replay.
 func (c *Cache) IsReplay(sname types.PrincipalName, a types.Authenticator) bool {
 	ct := a.CTime.Add(time.Duration(a.Cusec) * time.Microsecond)
+	verifYield("IsReplay:Lock")
 	c.mux.Lock()
 	defer c.mux.Unlock()
 	if ce, ok := c.entries[a.CName.PrincipalNameString()]; ok {
